@@ -90,7 +90,6 @@ Section Types.
     alpha_last : Z;                      (* solver.alpha_last_step (-2 = None) *)
     bro : option (jacm * list F * list F);  (* _last_jac, _last_jac_x, _last_y *)
     log : list row;
-    ragged : bool;                       (* an exception inside add_point_to_log left _log["knobs"] one longer *)
     ncall : nat }.                       (* MeritFunctionForMatch.call_counter *)
 
   Inductive res (A : Type) := Ok (a : A) | Err (e : err) (s : state) | Div.
@@ -99,17 +98,16 @@ Section Types.
   Definition bind {A B} (r : res A) (k : A -> res B) : res B :=
     match r with Ok a => k a | Err e s => Err e s | Div => Div end.
 
-  Definition set_knobs s v := mkState v (va s) (ta s) (sx s) (mfl s) (lpwt s) (lres s) (ltw s) (pen_after s) (alpha_last s) (bro s) (log s) (ragged s) (ncall s).
-  Definition set_va s v := mkState (knobs s) v (ta s) (sx s) (mfl s) (lpwt s) (lres s) (ltw s) (pen_after s) (alpha_last s) (bro s) (log s) (ragged s) (ncall s).
-  Definition set_ta s v := mkState (knobs s) (va s) v (sx s) (mfl s) (lpwt s) (lres s) (ltw s) (pen_after s) (alpha_last s) (bro s) (log s) (ragged s) (ncall s).
-  Definition set_sx s v m := mkState (knobs s) (va s) (ta s) v m (lpwt s) (lres s) (ltw s) (pen_after s) (alpha_last s) (bro s) (log s) (ragged s) (ncall s).
-  Definition set_mfl s m := mkState (knobs s) (va s) (ta s) (sx s) m (lpwt s) (lres s) (ltw s) (pen_after s) (alpha_last s) (bro s) (log s) (ragged s) (ncall s).
-  Definition set_eval s ok r w := mkState (knobs s) (va s) (ta s) (sx s) (mfl s) ok r w (pen_after s) (alpha_last s) (bro s) (log s) (ragged s) (S (ncall s)).
-  Definition set_pen s p := mkState (knobs s) (va s) (ta s) (sx s) (mfl s) (lpwt s) (lres s) (ltw s) p (alpha_last s) (bro s) (log s) (ragged s) (ncall s).
-  Definition set_alpha s a := mkState (knobs s) (va s) (ta s) (sx s) (mfl s) (lpwt s) (lres s) (ltw s) (pen_after s) a (bro s) (log s) (ragged s) (ncall s).
-  Definition set_bro s b := mkState (knobs s) (va s) (ta s) (sx s) (mfl s) (lpwt s) (lres s) (ltw s) (pen_after s) (alpha_last s) b (log s) (ragged s) (ncall s).
-  Definition set_log s l := mkState (knobs s) (va s) (ta s) (sx s) (mfl s) (lpwt s) (lres s) (ltw s) (pen_after s) (alpha_last s) (bro s) l (ragged s) (ncall s).
-  Definition set_ragged s := mkState (knobs s) (va s) (ta s) (sx s) (mfl s) (lpwt s) (lres s) (ltw s) (pen_after s) (alpha_last s) (bro s) (log s) true (ncall s).
+  Definition set_knobs s v := mkState v (va s) (ta s) (sx s) (mfl s) (lpwt s) (lres s) (ltw s) (pen_after s) (alpha_last s) (bro s) (log s) (ncall s).
+  Definition set_va s v := mkState (knobs s) v (ta s) (sx s) (mfl s) (lpwt s) (lres s) (ltw s) (pen_after s) (alpha_last s) (bro s) (log s) (ncall s).
+  Definition set_ta s v := mkState (knobs s) (va s) v (sx s) (mfl s) (lpwt s) (lres s) (ltw s) (pen_after s) (alpha_last s) (bro s) (log s) (ncall s).
+  Definition set_sx s v m := mkState (knobs s) (va s) (ta s) v m (lpwt s) (lres s) (ltw s) (pen_after s) (alpha_last s) (bro s) (log s) (ncall s).
+  Definition set_mfl s m := mkState (knobs s) (va s) (ta s) (sx s) m (lpwt s) (lres s) (ltw s) (pen_after s) (alpha_last s) (bro s) (log s) (ncall s).
+  Definition set_eval s ok r w := mkState (knobs s) (va s) (ta s) (sx s) (mfl s) ok r w (pen_after s) (alpha_last s) (bro s) (log s) (S (ncall s)).
+  Definition set_pen s p := mkState (knobs s) (va s) (ta s) (sx s) (mfl s) (lpwt s) (lres s) (ltw s) p (alpha_last s) (bro s) (log s) (ncall s).
+  Definition set_alpha s a := mkState (knobs s) (va s) (ta s) (sx s) (mfl s) (lpwt s) (lres s) (ltw s) (pen_after s) a (bro s) (log s) (ncall s).
+  Definition set_bro s b := mkState (knobs s) (va s) (ta s) (sx s) (mfl s) (lpwt s) (lres s) (ltw s) (pen_after s) (alpha_last s) b (log s) (ncall s).
+  Definition set_log s l := mkState (knobs s) (va s) (ta s) (sx s) (mfl s) (lpwt s) (lres s) (ltw s) (pen_after s) (alpha_last s) (bro s) l (ncall s).
 
 End Types.
 
@@ -123,10 +121,9 @@ Arguments r_knobs {F}. Arguments r_va {F}. Arguments r_ta {F}. Arguments r_pen {
 Arguments r_tolmet {F}. Arguments r_hit {F}. Arguments r_alpha {F}. Arguments r_tag {F}.
 Arguments knobs {F}. Arguments va {F}. Arguments ta {F}. Arguments sx {F}. Arguments mfl {F}. Arguments lpwt {F}.
 Arguments lres {F}. Arguments ltw {F}. Arguments pen_after {F}. Arguments alpha_last {F}. Arguments bro {F}.
-Arguments log {F}. Arguments ragged {F}. Arguments ncall {F}.
+Arguments log {F}. Arguments ncall {F}.
 Arguments set_knobs {F}. Arguments set_va {F}. Arguments set_ta {F}. Arguments set_sx {F}. Arguments set_mfl {F}.
 Arguments set_eval {F}. Arguments set_pen {F}. Arguments set_alpha {F}. Arguments set_bro {F}. Arguments set_log {F}.
-Arguments set_ragged {F}.
 
 (* carrier, element-wise operations, constants and oracles *)
 Record env := mkEnv {
@@ -345,14 +342,16 @@ Section Opt.
     let s2 := set_va s1 (set_flags (c_vtag cf) st v (va s1)) in
     set_va s2 (set_flags (c_vname cf) st vn (va s2)).
 
-  (* add_point_to_log(tag) *)
+  (* add_point_to_log(tag): the knob values are read first, the point is evaluated,
+     and only then every column (knobs included) gets its entry: an exception of
+     the evaluation leaves the log untouched *)
   Definition add_point (tg : N) (s : state) : res state :=
     let k := knobs s in
     match solver_eval (knobs_to_x k) s with
     | Ok (_, penalty, s1) =>
         Ok (set_log s1 (log s1 ++ [mkRow k (va s1) (ta s1) penalty (lres s1) (ltw s1)
                                         (map (fun _ => false) k) (-1)%Z tg]))
-    | Err e s1 => Err e (set_ragged s1)
+    | Err e s1 => Err e s1
     | Div => Div
     end.
 
@@ -503,7 +502,7 @@ Section Opt.
 
   (* Optimize.__init__: the object before its first add_point_to_log() *)
   Definition pre_init (k0 : list F) (va0 : list bool) : state :=
-    mkState k0 va0 (map (fun _ => true) (c_tval cf)) None [] false [] [] zero (-2)%Z None [] false 0.
+    mkState k0 va0 (map (fun _ => true) (c_tval cf)) None [] false [] [] zero (-2)%Z None [] 0.
   Definition init (k0 : list F) (va0 : list bool) : res state := add_point 0%N (pre_init k0 va0).
 
 End Opt.
